@@ -1,6 +1,7 @@
 package main
 
 import (
+	"context"
 	"fmt"
 	"sync"
 	"time"
@@ -276,6 +277,9 @@ func runSys(c *ctx) {
 			sysCase(c, rt, ns, ns, []sysExtra{{1, "evict", ns[0]}}, true)
 		}
 	}
+	if !c.noEnum {
+		runSysWait(c, []string{"eds", "rds", "cds", "lds"})
+	}
 	for i := 0; i < 10*c.budget && !c.expired(); i++ {
 		rt := []string{"eds", "rds", "cds", "lds"}[c.rng.intn(4)]
 		ns := sysNames[rt]
@@ -295,6 +299,142 @@ func runSys(c *ctx) {
 		}
 		sysCase(c, rt, ns, second, ex, c.rng.chance(10))
 		c.count("sys.random", 1)
+	}
+}
+
+// sysWaitCase: a lookup that is WAITING for a name while the response that supplies it is handled, and gives up (its
+// caller cancels) in one of the gaps between the handler's sections. Giving up concerns that caller alone: the name stays
+// subscribed, so the entry the handler then writes keeps being updated; the third response must be served.
+// cancelAt: 1 between acknowledgement and filter, 2 between filter and UpdateResource, 3 after the handler.
+func sysWaitCase(c *ctx, rt string, cancelAt int) {
+	installYield()
+	w, err := newWorld(worldOpts{ndsNotRequired: true, fetchTimeout: 20 * time.Second})
+	if err != nil {
+		fmt.Println("sys: world:", err)
+		return
+	}
+	defer func() {
+		recvArm(false)
+		recvRelease()
+		if !w.hung {
+			w.close()
+		}
+	}()
+	h := &histRun{c: c, w: w}
+	pre := []interface{}{obj{"o": "startup-lds", "stamp": inboundStamp}}
+	obs0 := h.observe(0)
+	T := rtOf(rt)
+	ns := sysNames[rt]
+	mk := func(ver int, names []string) (obj, []*anypb.Any) {
+		var slots [][3]string
+		var anys []*anypb.Any
+		for _, n := range names {
+			st := fmt.Sprintf("%s#%d", n, ver)
+			slots = append(slots, [3]string{"good", n, st})
+			anys = append(anys, anyStamped(rt, n, st))
+		}
+		return obj{"rt": rt, "v": fmt.Sprintf("v%d", ver), "nonce": fmt.Sprintf("n%d", ver), "slots": slotsJSON(slots)}, anys
+	}
+	h.stepAt(obj{"o": "sub", "rt": rt, "n": ns[1]}, 0, func() { w.m.VerifWatch(T, ns[1], false) })
+	o1, a1 := mk(1, ns[1:])
+	o1["o"] = "push"
+	h.stepAt(o1, 0, func() { w.feed(mkResp(urlOf(rt), "v1", "n1", a1)) })
+	// the waiting lookup of ns[0]
+	actx, cancel := context.WithCancel(context.Background())
+	defer cancel()
+	resCh := make(chan string, 1)
+	h.stepAt(obj{"o": "getstart", "rt": rt, "n": ns[0]}, 0, func() {
+		go func() {
+			res, err := w.m.Get(actx, T, ns[0])
+			resCh <- canonGet(T, res, err)
+		}()
+		w.waitFor(func() bool {
+			for _, n := range w.m.VerifInterest()[T] {
+				if n == ns[0] {
+					return true
+				}
+			}
+			return false
+		}, 5*time.Second)
+	})
+	giveUp := func(point int) {
+		var res string
+		h.stepAt(obj{"o": "getcancel", "rt": rt, "n": ns[0]}, point, func() {
+			cancel()
+			select {
+			case res = <-resCh:
+			case <-time.After(5 * time.Second):
+				res = "hang"
+			}
+		})
+		if ob, ok := h.steps[len(h.steps)-1].(obj)["obs"].(obj); ok {
+			ob["get"] = res
+		}
+	}
+	o2, a2 := mk(2, ns)
+	recvArm(true)
+	oa := obj{"o": "ack"}
+	for k, v := range o2 {
+		oa[k] = v
+	}
+	h.stepAt(oa, 5, func() { w.feed(mkResp(urlOf(rt), "v2", "n2", a2)) })
+	if recvPoint() == 5 {
+		if cancelAt == 1 {
+			giveUp(5)
+		}
+		h.stepAt(obj{"o": "filter"}, 6, func() { recvRelease() })
+		if cancelAt == 2 {
+			giveUp(6)
+		}
+		h.stepAt(obj{"o": "apply"}, 0, func() { recvArm(false); recvRelease() })
+	}
+	recvArm(false)
+	if cancelAt == 3 {
+		// the handler delivered: the lookup was woken and has its value
+		var res string
+		h.stepAt(obj{"o": "getresult", "rt": rt, "n": ns[0]}, 0, func() {
+			select {
+			case res = <-resCh:
+			case <-time.After(5 * time.Second):
+				res = "hang"
+			}
+		})
+		if ob, ok := h.steps[len(h.steps)-1].(obj)["obs"].(obj); ok {
+			ob["get"] = res
+		}
+	}
+	o3, a3 := mk(3, ns)
+	o3["o"] = "push"
+	h.stepAt(o3, 0, func() { w.feed(mkResp(urlOf(rt), "v3", "n3", a3)) })
+	for _, n := range ns {
+		var res string
+		h.stepAt(obj{"o": "get", "rt": rt, "n": n}, 0, func() {
+			gctx, gc := context.WithTimeout(context.Background(), 50*time.Millisecond)
+			defer gc()
+			r, err := w.m.Get(gctx, T, n)
+			res = canonGet(T, r, err)
+		})
+		h.steps[len(h.steps)-1].(obj)["obs"].(obj)["get"] = res
+	}
+	uni := obj{"lds": []string{xdsresource.ReservedLdsResourceName}, "rds": []string{}, "cds": []string{}, "eds": []string{}}
+	all := append([]string{}, ns...)
+	if rt == "lds" {
+		all = append(all, xdsresource.ReservedLdsResourceName)
+	}
+	uni[rt] = dedup(all)
+	c.count("sys.wait", 1)
+	c.emit(obj{"op": "sys", "cfg": obj{"nds": false, "ns": "default", "dom": "cluster.local"}, "universe": uni, "T": rt,
+		"pre": pre, "obs0": obs0, "steps": h.steps})
+}
+
+func runSysWait(c *ctx, rts []string) {
+	for _, rt := range rts {
+		for at := 1; at <= 3; at++ {
+			if c.expired() {
+				return
+			}
+			sysWaitCase(c, rt, at)
+		}
 	}
 }
 
